@@ -37,7 +37,7 @@
 (*     sealed under k and neither nonce (first 12 bytes) nor ciphertext    *)
 (*     nor tag was altered (TamperOpens);                                  *)
 (*   - wallet data is a set of named atoms (mnemonic, account label,       *)
-(*     output commitment, slatepack address, top-level directory);         *)
+(*     output commitment, slatepack address, top-level directory, token);  *)
 (*   - the wallet store is its number of accounts plus a "an LMDB write    *)
 (*     transaction was committed" flag per step (the harness observes a    *)
 (*     digest of the wallet directory);                                    *)
@@ -47,6 +47,22 @@
 (*     that wrote it (Dev_ApiKeyNotModelled);                              *)
 (*   - the keychain-mask token is always the right one (the client uses    *)
 (*     the token of the latest open_wallet reply; wrong tokens are C14).   *)
+(*                                                                         *)
+(* Behaviour of the code that the model transcribes and the property       *)
+(* tolerates (none of it lets an unauthenticated request act):             *)
+(*   Dev_BatchInitNoRotate  init_secure_api inside an encrypted batch, or  *)
+(*        sent as a notification, runs (the client may derive a key) but   *)
+(*        the handler keeps the old key: client and listener disagree      *)
+(*        until the next key exchange;                                     *)
+(*   Dev_BatchOpenNoMask    likewise open_wallet inside a batch does not   *)
+(*        refresh the keychain mask the handler keeps for the foreign API; *)
+(*   Dev_NonceFirst12       a nonce longer than 12 bytes is accepted (the  *)
+(*        first 12 are used); Dev_OuterUnchecked the envelope's method is  *)
+(*        not looked at and the array form of the struct is accepted;      *)
+(*   Dev_NoReplayGuard      a recorded envelope is accepted again while    *)
+(*        its key is current;                                              *)
+(*   Dev_EmptyInClear       an authenticated notification is answered with *)
+(*        `[]` in clear (no content).                                      *)
 (***************************************************************************)
 EXTENDS Integers, Sequences, FiniteSets, TLC
 
